@@ -5,7 +5,7 @@
    leaf order a permutation, initial callback pairs each exactly once.  The theorems below are about
    the Gallina transcription (Model/Linkage.v) and about the reference functions. *)
 From Coq Require Import Permutation.
-From HpoV Require Import Model.Base Model.Group Model.Linkage Run.C17 Proofs.C17P Proofs.C17R Proofs.LinkageP.
+From HpoV Require Import Model.Base Model.Group Model.Linkage Run.C17 Proofs.C17P Proofs.C17R Proofs.LinkageP Proofs.DendroP.
 
 (* utils::Combinations, for EVERY fuel: what the iterator state machine yields from state
    (idx1, idx2) is the rest of row idx1 followed by all later rows, live entries only *)
@@ -99,6 +99,22 @@ Theorem C17_initial_matrix : forall (F : Type) (dist : group -> group -> F) sets
   dm_get F (a, b) (l_dm F s0) = Some (dist ga gb).
 Proof. exact l_new_distances. Qed.
 
+(* THE RUN RETURNS A DENDROGRAM (every number type, distance function, method; n >= 1 inputs):
+   n-1 merges; merge k (node n+k) has lhs < rhs < n+k and its size is the sum of the sizes of its
+   parts; every node 0 .. 2n-3 occurs exactly once as lhs or rhs (each input and each intermediate
+   cluster is merged exactly once, the last node never); for n >= 2 the last merge has size n and
+   Linkage::indicies is a permutation of 0 .. n-1 *)
+Theorem C17_run_returns_a_dendrogram : forall (F : Type) flt fgt mean dist mt sets sf, (1 <= length sets)%nat ->
+  linkage F flt fgt mean dist mt sets = Ok sf ->
+  let n := length sets in let cl := l_clusters F sf in
+  (length cl + 1 = n)%nat /\
+  (forall k c, nth_error cl k = Some c ->
+     (c_lhs F c < c_rhs F c)%nat /\ (c_rhs F c < n + k)%nat /\
+     c_size F c = (szf F n (firstn k cl) (c_lhs F c) + szf F n (firstn k cl) (c_rhs F c))%nat) /\
+  Permutation (used F cl) (seq 0 (2 * n - 2)) /\
+  ((2 <= n)%nat -> (exists c, nth_error cl (n - 2) = Some c /\ c_size F c = n) /\ Permutation (indicies F sf) (seq 0 n)).
+Proof. exact linkage_dendrogram. Qed.
+
 Print Assumptions C17_combinations_state_machine.
 Print Assumptions C17_initial_pairs_each_once.
 Print Assumptions C17_closest_is_minimum.
@@ -109,3 +125,4 @@ Print Assumptions C17_clustering_run.
 Print Assumptions C17_distances_follow_method.
 Print Assumptions C17_union_distances.
 Print Assumptions C17_initial_matrix.
+Print Assumptions C17_run_returns_a_dendrogram.
